@@ -417,19 +417,8 @@ func (c *forgeCtx) newLenSet(name string, idx []int, tpos int) *lenSet {
 	}
 	// control: the honest set must verify, else the forgeries built on it prove nothing
 	fg := &forgery{form: "honest control of a length-forgery set", side: name}
-	if ok, verr, pv := s.w.verify(); !ok || verr != nil || pv != nil {
-		p, perr := c.trie.Prove(c.store, s.w.Keys)
-		if perr != nil {
-			c.failWire(s.w, fg, "Prove returned error %v for the honest query set", perr)
-		}
-		ew := wireOf(s.w.Keys, p, c.root, c.L)
-		if eok, everr, epv := ew.verify(); !eok || everr != nil || epv != nil {
-			c.failWire(ew, fg, "Verify(Prove(keys)) = %v, err=%v, panic=%v on the real root (honest set of a length forgery)", eok, everr, epv)
-		}
-		evid.R.Label(c.tag+"-control:HARNESS assembler disagrees with Prove (forged sets built on it prove nothing)", 1)
-		evid.R.Note("length-forgery control: the proof assembled from the model for %x does not verify (%v %v %v) but the one from Prove does\nassembled: %s\nProve: %s", s.w.Keys, ok, verr, pv, s.w, ew)
-		return nil
-	}
+	// (FATAL, and compared with Prove's output for the same keys: see honestControl in forged_test.go)
+	c.honestControl(s.w, fg, "honest set of a length forgery")
 	evid.R.Label(c.tag+"-control:honest query set verifies", 1)
 	return s
 }
